@@ -34,14 +34,14 @@ func genC10(t *rapid.T) C10Case {
 	branch := 0
 	n := rapid.IntRange(2, lim.maxBlocks+4).Draw(t, "nsteps")
 	for i := 0; i < n; i++ {
-		op := rapid.SampledFrom([]string{"block", "block", "block", "block", "undo", "verify", "restore", "badmodify"}).Draw(t, "op")
+		op := rapid.SampledFrom([]string{"block", "block", "block", "block", "undo", "verify", "vpp", "restore", "badmodify"}).Draw(t, "op")
 		if op == "badmodify" && f.NumLive() == 0 {
 			op = "block"
 		}
 		if op == "undo" && len(stack) == 0 {
 			op = "block"
 		}
-		if op == "verify" && f.NumLive() == 0 {
+		if (op == "verify" || op == "vpp") && f.NumLive() == 0 {
 			op = "block"
 		}
 		switch op {
@@ -58,8 +58,8 @@ func genC10(t *rapid.T) C10Case {
 			stack = stack[:len(stack)-1]
 			branch++
 			c.Steps = append(c.Steps, C10Step{Op: "undo"})
-		case "verify":
-			c.Steps = append(c.Steps, C10Step{Op: "verify", Set: genRequest(t, f)})
+		case "verify", "vpp":
+			c.Steps = append(c.Steps, C10Step{Op: op, Set: genRequest(t, f)})
 		case "restore":
 			c.Steps = append(c.Steps, C10Step{Op: "restore"})
 		case "badmodify":
@@ -329,16 +329,25 @@ func runC10(c C10Case) *Result {
 			for _, s := range fr.b.Del {
 				tracked[s] = true
 			}
-		case "verify":
+		case "verify", "vpp":
 			for _, s := range st.Set {
 				if s < 0 || s >= len(f.Dead) || f.Dead[s] {
 					return res.failf("case error: step %d names slot %d which is not live", i, s)
 				}
 			}
 			hs := f.HashesOf(st.Set)
-			proof := f.View().Proof(hs)
+			vw := f.View()
+			proof := vw.Proof(hs)
 			for _, in := range insts {
-				if err := in.Acc().Verify(cloneHashes(hs), cloneProof(proof), true); err != nil {
+				var err error
+				if st.Op == "vpp" && in.M != nil {
+					// the partial-proof way of remembering: only what GetMissingPositions asks for is handed over
+					err = vppRemember(in.M, &in.ar, vw, proof.Targets, hs)
+				} else {
+					in.ar.next()
+					err = in.Acc().Verify(in.ar.hashes(hs), in.ar.proof(proof), true)
+				}
+				if err != nil {
 					res.class("setup-failed")
 					return res
 				}
